@@ -184,7 +184,7 @@ Proof. exact no_raise_all_schedules. Qed.
 (* the global invariant behind it holds in every reachable configuration of every schedule *)
 Theorem dpop_invariant_all_schedules : forall P dep B, dvalid P dep B -> forall sched,
   Inv P dep B (fst (run (dpop_proto P) sched)).
-Proof. intros P dep B V sched. exact (proj1 (run_inv P dep B V sched)). Qed.
+Proof. exact inv_all_schedules. Qed.
 
 (* completeness of the schedule => every node finished, one finished / selection event each *)
 Theorem dpop_complete_all_finished : forall P sched, dpop_valid P ->
